@@ -165,9 +165,76 @@ def grammar_script(rng):
     return "\n".join(L) + "\n"
 
 
+def refgraph_script(frames, order, unders=None, nexts=None, first=None, clones=None):
+    """an otherwise valid script whose only adversarial part is its reference graph: frames[i] = name of the over frame
+    (or None / 'zz' dangling), declared in `order`; optional under / next links; `clones` = {moot: [moots it clones]}"""
+    L = ["house h", "  framer m be active" + (" first %s" % first if first else "")]
+    for i in order:
+        L.append("    frame f%d%s" % (i, (" in %s" % frames[i]) if frames[i] else ""))
+        if unders and unders.get(i):
+            L.append("      under %s" % unders[i])
+        if nexts and nexts.get(i):
+            L.append("      next %s" % nexts[i])
+        L.append("      go next if elapsed >= 1.0")
+    for mname, targets in (clones or {}).items():
+        L.append("  framer %s be moot" % mname)
+        L.append("    frame x0")
+        for j, t in enumerate(targets):
+            L.append("      aux %s as %s" % (t, "mine" if j % 2 else "k%d" % j))
+    if clones:
+        L.insert(3, "      aux %s as top" % sorted(clones)[0])
+    return "\n".join(L) + "\n"
+
+
+def refgraph_cases(n, nsample=None, rng=None):
+    """every over-graph on n frames (each frame: no over, any frame incl. itself, or a dangling name) x every
+    declaration order; plus under / next / first / clone graphs"""
+    import itertools
+    names = ["f%d" % i for i in range(n)]
+    out = []
+    for overs in itertools.product([None] + names + ["zz"], repeat=n):
+        for order in itertools.permutations(range(n)):
+            out.append(("over", refgraph_script(list(overs), list(order))))
+    for overs in itertools.product([None] + names, repeat=n):
+        for us in itertools.product([None] + names, repeat=n):
+            if any(us):
+                out.append(("under", refgraph_script(list(overs), list(range(n)), unders=dict(enumerate(us)))))
+    for ns in itertools.product([None] + names + ["zz", "me"], repeat=n):
+        out.append(("next", refgraph_script([None] * n, list(range(n)), nexts=dict(enumerate(ns)), first=names[-1])))
+    moots = ["q%d" % i for i in range(3)]
+    for sets in itertools.product([(), ("q0",), ("q1",), ("q2",), ("q0", "q1"), ("q1", "q2"), ("q2", "q0"), ("zz",)], repeat=3):
+        out.append(("clone", refgraph_script([None], [0], clones=dict(zip(moots, sets)))))
+    if nsample and len(out) > nsample:
+        out = rng.sample(out, nsample)
+    return out
+
+
 def worker(ctx, job):
     rng = ctx.rng
     plans = job["plans"]
+    confirmed = {}
+    gbudget = 1.0       # these scripts are a dozen lines: a normal build takes a few milliseconds
+    for kind, text in job.get("refgraphs", []):
+        if sum(confirmed.values()) >= 6:
+            ctx.hit("refgraphs_skipped_after_repeated_non_termination")
+            continue        # the witnesses are in hand; do not spend the worker's time limit on more of the same
+        cls, key, detail = outcome_of(text, gbudget)
+        ctx.event()
+        ctx.hit("kind_refgraph_" + kind)
+        ctx.hit("outcome_" + cls)
+        ctx.case(text, nontrivial=True)
+        if cls == "timeout":
+            cls2, key2, det2 = outcome_of(text, gbudget * 8)
+            if cls2 == "timeout":
+                confirmed[key] = confirmed.get(key, 0) + 1
+                ctx.fail(key, "building does not terminate (watchdog tripped twice, %gs and %gs) in %s" % (
+                    gbudget, gbudget * 8, detail), {"script": text, "where": detail})
+                continue
+            cls, key, detail = cls2, key2, det2
+        if cls == "internal":
+            ctx.fail(key, "building raised an internal error: %s" % detail, {"script": text, "error": detail})
+        else:
+            ctx.check(True, "ok")
     budget = job["budget"]
     feats = gen.feat(p_let=0.3, p_pokes=0.4, p_aux=0.3, naux=(1, 2), p_condaux=0.3, nslaves=(0, 1), p_fiat=0.3, p_bids=0.3,
                      p_done_need=0.3, nframes=(2, 5), nframers=(1, 2))
@@ -207,9 +274,17 @@ def worker(ctx, job):
 def run(ctx):
     d = os.path.join(core.REPO, "ioflo", "app", "plan")
     plans = [os.path.join(d, f) for f in sorted(os.listdir(d)) if f.endswith(".flo")]
-    total = ctx.pick(4000, 160000)
+    total = ctx.pick(12000, 160000)
     n = 16
-    ctx.shard([{"plans": plans, "n": total // n, "budget": 5.0} for i in range(n)], timeout=ctx.pick(400, 3000))
+    # reference graphs: all graphs on 3 frames (quick) / 3 and a sample of 4 frames (thorough), exhaustive
+    graphs = refgraph_cases(3)
+    ctx.extra["refgraph_cases_3_frames_exhaustive"] = len(graphs)
+    if not ctx.quick:
+        graphs += refgraph_cases(4, nsample=40000, rng=ctx.rng)
+    ctx.shard([{"plans": plans, "n": total // n, "budget": 5.0, "refgraphs": graphs[i::n]} for i in range(n)],
+              timeout=ctx.pick(400, 3000))
+    for k in ("over", "under", "next", "clone"):
+        ctx.floor("kind_refgraph_" + k, 100)
     ctx.floor("kind_grammar", 200)
     ctx.floor("kind_plan-mutation", 200)
     ctx.floor("kind_generated-mutation", 200)
